@@ -69,6 +69,15 @@ int sm4_cbc_padding_decrypt(const SM4_KEY *key, const uint8_t piv[16],
 		return -1;
 	}
 	len -= padding;
+	{
+		size_t i;
+		for (i = len; i < 16; i++) {
+			if (block[i] != padding) {
+				error_print();
+				return -1;
+			}
+		}
+	}
 	memcpy(out + inlen - 16, block, len);
 	*outlen = inlen - padding;
 	return 1;
